@@ -104,6 +104,8 @@ def deductive(prop, tier, seed, findings):
         mod.build(ctx)
     except (front.SelectorError, front.OutOfSubset) as e:
         ctx.undecided.append(('build', '%s: %s' % (type(e).__name__, e)))
+    except (KeyError, AttributeError, IndexError, TypeError, ValueError) as e:
+        ctx.undecided.append(('build', 'contract no longer matches the code (%s: %s)' % (type(e).__name__, str(e)[:160])))
     info['gen_s'] = time.time() - t0
     # known-finding carve-outs: expected to stay sat while the finding is listed; otherwise ordinary obligations
     expected = []
